@@ -132,12 +132,15 @@ def attrs_of(line):
     return out
 
 
-def expiry(ctx, zone, iface, expires, max_age, delete=False):
-    case = {"zone": zone, "iface": iface, "expires": expires, "max_age": max_age, "delete": delete}
+def expiry(ctx, zone, iface, expires, max_age, delete=False, gap=0.0):
+    """gap: seconds between the construction of the response object and the set_cookie call ("now" is the time of the call)"""
+    case = {"zone": zone, "iface": iface, "expires": expires, "max_age": max_age, "delete": delete, "seconds_between_construction_and_set_cookie": gap}
     box = {}
 
     def build(ns):
         r = ns.PlainTextResponse("x")
+        if gap:
+            time.sleep(gap)
         box["t0"] = time.time()
         if delete == "after-set":
             # the same response first sets the cookie, then deletes it: a client applies the lines in order, the last one decides
@@ -208,6 +211,7 @@ def expiry(ctx, zone, iface, expires, max_age, delete=False):
         ctx.violation("max-age-unrequested", case, lines[0])
 
 
+CASE_VARIANTS = [[("sid", "lower"), ("SID", "UPPER"), ("Sid", "Mixed")], [("a", "1"), ("A", "2")], [("Path", "p"), ("path", "q"), ("x", "y")]]
 SPECIAL_NAMES = ["$Path", "$Domain", "$Port", "$Version", "$x", "path", "Expires", "Max-Age", "secure", "HttpOnly", "SameSite", "domain", "__Host-a", "__Secure-b"]
 
 
@@ -276,6 +280,16 @@ def run(ctx):
             ctx.case(repr(cookies) if any(classify(v) != "plain" for _, v in cookies) else None)
             if i < 2:
                 ctx.sample("multi-cookie", {"cookies": cookies})
+        # ---------- a response object built some seconds before the cookie is set
+        if ctx.shard == 0:
+            for iface in ("wsgi", "asgi"):
+                expiry(ctx, "UTC", iface, 60, -1, gap=2.3)
+                ctx.case(("late-set-cookie", iface))
+        # ---------- cookie names are case-sensitive: names that differ only in case are different cookies
+        if ctx.shard == 0:
+            for cookies in CASE_VARIANTS:
+                roundtrip(ctx, rng, list(cookies))
+                ctx.case(("case-variants", repr(cookies)))
         # ---------- expiry under time zones
         combos = [(e, m) for e in (None, 0, 1, 59, 3600, 86400 * 400, -3600) for m in (-1, 0, 1, 10 ** 9)]
         zi = 0
